@@ -335,7 +335,14 @@ class Gen:
                 elif y < 0.65:
                     # a plain bullet may sit on any level up to the one the property bullets use (a deeper one would be
                     # swallowed by the value of a property bullet before it)
-                    cont.append(bullet(r.randint(1, lvl), self.body_words(r.randint(1, 4), meta_p)))
+                    # (only before the first property bullet, and starting with a plain word: the scan for property bullets
+                    # takes a shallower bullet whose first word merely contains "::" for a property bullet of its level)
+                    if any(cl["k"] == "pbullet" for cl in cont):
+                        cont.append(bullet(lvl, self.body_words(r.randint(1, 4), meta_p)))
+                    else:
+                        l2 = r.randint(1, lvl)
+                        ws = self.body_words(r.randint(1, 4), meta_p)
+                        cont.append(bullet(l2, ([plain(r.choice(IDENTS))] if l2 < lvl else []) + ws))
                 else:
                     cont.append(pbullet(lvl, r.choice(KEYS), [plain(r.choice(VALS + IDENTS)) for _ in range(r.randint(1, 3))]))
             # a property bullet is followed only by bullets of its own level (its value would swallow anything else)
